@@ -89,6 +89,8 @@ fn configure(t: &mut Tera, prefixes: usize, suffixes: &Option<Vec<String>>) {
 }
 
 pub fn run(cx: &mut Cx) {
+    // scratch files for add_template_files live next to this shard's report
+    let scratch = std::path::PathBuf::from(cx.out.clone().unwrap_or_else(|| "work/C10/x".into())).with_extension(format!("files-{}", std::process::id()));
     let menu = menu();
     let total = cx.total(10_000, 1_000_000);
     for case in cx.my_cases(total) {
@@ -159,10 +161,45 @@ pub fn run(cx: &mut Cx) {
                         break;
                     }
                 };
-                log.push(format!("add({batch:?})"));
+                // one batch in four goes through add_template_files (its own insertion and rollback code): the sources are
+                // written to scratch files first; one such batch in three names a file that is missing or not UTF-8, which
+                // must fail the whole call
+                let via_files = rng.chance(1, 4);
+                let file_fault = if via_files && rng.chance(1, 3) { Some((rng.below(batch.len()), rng.bool())) } else { None };
+                let mut paths: Vec<(std::path::PathBuf, Option<String>)> = vec![];
+                if via_files {
+                    let _ = std::fs::create_dir_all(&scratch);
+                    for (i, (n, src)) in batch.iter().enumerate() {
+                        let pth = scratch.join(format!("{case}-{}-{i}.tpl", log.len()));
+                        match file_fault {
+                            Some((fi, true)) if fi == i => {
+                                let _ = std::fs::remove_file(&pth);
+                            }
+                            Some((fi, false)) if fi == i => {
+                                let _ = std::fs::write(&pth, [b'a', 0xff, 0xfe, b'{', b'{']);
+                            }
+                            _ => {
+                                let _ = std::fs::write(&pth, src.as_bytes());
+                            }
+                        }
+                        paths.push((pth, Some(n.clone())));
+                    }
+                    cx.count("calls_through_add_template_files", 1);
+                }
+                log.push(format!("{}({batch:?}){}", if via_files { "add_template_files" } else { "add" }, match file_fault { Some((i, true)) => format!(" with file {i} missing"), Some((i, false)) => format!(" with file {i} not UTF-8"), None => String::new() }));
                 cx.eval();
                 cx.count("calls", 1);
-                let r = guard(|| t.add_raw_templates(batch.clone()).map_err(|e| e.to_string()));
+                let r = guard(|| if via_files { t.add_template_files(paths.clone()).map_err(|e| e.to_string()) } else { t.add_raw_templates(batch.clone()).map_err(|e| e.to_string()) });
+                for (pth, _) in &paths {
+                    let _ = std::fs::remove_file(pth);
+                }
+                if file_fault.is_some() {
+                    cx.count("file_faults_injected", 1);
+                    if let Ok(Ok(())) = r {
+                        cx.violation("C10/unreadable-file-accepted", "add_template_files succeeded although one file of the batch is missing or not UTF-8".to_string(), json!({"log": log}));
+                        break;
+                    }
+                }
                 match r {
                     Err(p) => {
                         cx.violation(&format!("C10/panic/{}", panic_site(&p)), format!("add_raw_templates panicked: {p}"), json!({"log": log}));
@@ -243,4 +280,5 @@ pub fn run(cx: &mut Cx) {
         let l2 = log.clone();
         cx.sample(|| json!({"history": l2.iter().map(|x| clip(x, 300)).collect::<Vec<_>>()}));
     }
+    let _ = std::fs::remove_dir_all(&scratch);
 }
